@@ -160,6 +160,28 @@ struct Engine : MemView {
         void thread_body(int id);
         void run_threads();
         void join_others();
+        struct CbTrig {
+                int cmd, type, where;
+                long skip;
+        };
+        std::vector<CbTrig> cbtrig; // triggers waiting to be issued from inside an io callback
+        void fire_cbtrig(int where)
+        {
+                if (cbtrig.empty() || force_rx_refuse)
+                        return;
+                for (size_t i = 0; i < cbtrig.size(); i++) {
+                        if (cbtrig[i].where != where)
+                                continue;
+                        if (cbtrig[i].skip > 0) {
+                                cbtrig[i].skip--;
+                                continue;
+                        }
+                        CbTrig t = cbtrig[i];
+                        cbtrig.erase(cbtrig.begin() + (long)i);
+                        do_trigger(t.cmd, t.type);
+                        return; // one per callback
+                }
+        }
         bytes iso_ev, iso_cmd;
         // halves beyond 4 KiB (giant worlds): the first and the last 2 KiB stand for the half
         static void iso_snap(bytes &dst, const void *buf, size_t cap)
@@ -400,6 +422,7 @@ static int io_read(char *ch)
                 }
                 e->log.add((uint64_t)0x100);
                 e->mon.on_read(false, 0);
+                e->fire_cbtrig(0);
                 return 0;
         }
         unsigned char b = (unsigned char)e->rx[e->rx_pos++];
@@ -409,6 +432,7 @@ static int io_read(char *ch)
         e->log.add((uint64_t)0x200 + b);
         e->note_fp(2);
         e->mon.on_read(true, b);
+        e->fire_cbtrig(0);
         return 1;
 }
 
@@ -451,6 +475,7 @@ static int io_write(char ch)
                 e->log.add((uint64_t)0x300 + (unsigned char)ch);
                 e->note_fp(3);
                 e->mon.on_write((unsigned char)ch, false);
+                e->fire_cbtrig(1);
                 return code;
         }
         if (e->opts.keep_output)
@@ -459,6 +484,7 @@ static int io_write(char ch)
         e->log.add((uint64_t)0x400 + (unsigned char)ch);
         e->note_fp(4);
         e->mon.on_write((unsigned char)ch, true);
+        e->fire_cbtrig(1);
         return 1;
 }
 
@@ -1701,6 +1727,9 @@ void Engine::exec(const Op &o)
                         join_others();
                 drain();
                 break;
+        case OP_TRIGCB:
+                cbtrig.push_back({(int)o.a, (int)o.b, (int)o.c, (long)o.d});
+                break;
         case OP_PUMP:
                 // long event histories in one op: the ring indices go round tens of thousands of times
                 {
@@ -1858,6 +1887,24 @@ RunResult run_plan(const Plan &p, const RunOpts &o)
                                 break;
                         e.exec(op);
                 }
+        // C18: a unit that another unit's newline cut short stays partially emitted for ever. The finding belongs to C11;
+        // what C18 says about it is decided by asking the library: service on (faults off, monitor silent) until
+        // cat_is_busy reports OK - if it does, it does so with that unit half emitted.
+        if (o.focus == "C18" && e.mon.viol.set() && e.mon.viol.rule == "unit-broken-by-newline" && p.sched == 0 && !e.es.overrun) {
+                Violation first = e.mon.viol;
+                e.mon.off = true;
+                e.tx_mode = 0;
+                e.rx_mode = 0;
+                for (int i = 0; i < 4000; i++) {
+                        e.api_service();
+                        if (e.api_busy() == CAT_STATUS_OK) {
+                                e.mon.viol.prop = "C18,C11";
+                                e.mon.viol.rule = "busy-ok-with-abandoned-unit";
+                                e.mon.viol.detail = "cat_is_busy returned OK after an output unit had been abandoned half-way (" + first.detail + ")";
+                                break;
+                        }
+                }
+        }
         if (e.mon.stray)
                 e.mon.classify_stray();
         e.mon.flush_deferred();
